@@ -1,8 +1,11 @@
 """C18 — printed labels denote the actual unit.
 
-Explicit-state: the C02 state graph (same BFS) + scaling/common-unit/named-unit programs; for every
-state the implementation's label is read out (string, sizeof, strlen, NUL) and *parsed* with the
-documented grammar (vf/labels.py); its denotation (dim, mag) must equal the state's model value.
+Explicit-state: the C02 state graph (same successor function, C02's menus) + scaling/common-unit/named-unit
+programs; for every state AND for every distinct transition expression the implementation's label is read
+out (string, sizeof, strlen, NUL, usability in a constant expression) and *parsed* with the documented
+grammar (vf/labels.py); its denotation (dim, mag) must equal the model value of the target state.
+Prefixed units: verbatim prefix symbol + inner label, and additionally the denotation when the result parses.
+No two records with different (dim, mag) may print the same marker-free label.
 """
 import itertools
 import os
@@ -24,14 +27,40 @@ namespace gen {
 struct Twelves : decltype(au::Inches{} * au::mag<12>()) {};
 }
 namespace c18 {
-template <typename X>
-void label_rec() {
-    const auto &l = au::unit_label(X{});
-    constexpr std::size_t sz = sizeof(au::unit_label(X{}));
+// evaluated in a constant expression: exactly one NUL, at the end
+template <std::size_t N>
+constexpr bool ct_ok(const char (&a)[N]) {
+    for (std::size_t i = 0; i + 1 < N; ++i) if (a[i] == '\0') return false;
+    return a[N - 1] == '\0';
+}
+template <std::size_t N>
+void arr_rec(const char (&l)[N], std::size_t sz, bool ct, char c0) {
     vf_s("label", vf::json_escape(l, std::strlen(l)));
     vf_i("sizeof", (long long)sz);
     vf_i("strlen", (long long)std::strlen(l));
     vf_b("nul", l[sz - 1] == '\0');
+    vf_b("ct", ct && c0 == l[0] && N == sz);
+}
+template <typename X>
+void label_rec() {
+    const auto &l = au::unit_label(X{});
+    constexpr std::size_t sz = sizeof(au::unit_label(X{}));
+    // "compile-time string": the characters must be readable in constant expressions
+    constexpr const auto &cl = au::unit_label(X{});
+    constexpr bool ct = c18::ct_ok(cl);
+    constexpr char c0 = cl[0];
+    static_assert(sizeof(cl) == sz, "");
+    arr_rec(l, sz, ct, c0);
+}
+template <typename M>
+void maglabel_rec() {
+    const auto &l = au::mag_label(M{});
+    constexpr std::size_t sz = sizeof(au::mag_label(M{}));
+    constexpr const auto &cl = au::mag_label(M{});
+    constexpr bool ct = c18::ct_ok(cl);
+    constexpr char c0 = cl[0];
+    static_assert(sizeof(cl) == sz, "");
+    arr_rec(l, sz, ct, c0);
 }
 template <typename Q>
 std::string stream(Q q) { std::ostringstream o; o << q; return o.str(); }
@@ -64,6 +93,11 @@ void stream_float() {
 }
 '''
 
+# documented labels of the library constants (transcribed from the reference docs, not read from the headers)
+CONSTANTS = [("au::AVOGADRO_CONSTANT", "N_A"), ("au::BOLTZMANN_CONSTANT", "k_B"), ("au::CESIUM_HYPERFINE_TRANSITION_FREQUENCY", "Delta_nu_Cs"),
+             ("au::ELEMENTARY_CHARGE", "e"), ("au::LUMINOUS_EFFICACY_540_TERAHERTZ", "K_cd"), ("au::PLANCK_CONSTANT", "h"),
+             ("au::REDUCED_PLANCK_CONSTANT", "h_bar"), ("au::SPEED_OF_LIGHT", "c"), ("au::STANDARD_GRAVITY", "g_0")]
+
 
 def atom_table(atoms):
     """label -> (dim, mag) for every *named* unit that can occur inside labels of this run."""
@@ -89,18 +123,56 @@ def atom_table(atoms):
     return t
 
 
+def menus_for(tier, n_at):
+    """C02's menus (statement: 'all generated unit expressions of C02').  If c02 exposes them, take them read-only."""
+    f = getattr(c02, "menus_for", None)
+    if f is not None:
+        try:
+            m, depth = f(tier, n_at)
+            return m, depth
+        except Exception:
+            pass
+    full = {"binary": range(n_at), "pow": (-2, -1, 0, 1, 2, 3), "root": (2, 3), "scale": True, "prefix": model.ALL_PREFIXES}
+    nopfx = dict(full, prefix=())
+    if tier == "quick":
+        return {0: full, 1: dict(nopfx, prefix=model.ALL_PREFIXES[8:16:3])}, 2
+    return {0: full, 1: dict(full, prefix=model.ALL_PREFIXES[::4]), 2: {"binary": (0, 1), "pow": (2,), "scale": True}}, 3
+
+
+def digit_alphabet():
+    """Structured (enumerated, not sampled) 64-bit integers for IToA/UIToA: every digit at every position, repdigits,
+    ascending/descending/alternating digit runs of every length, the lattice k*2^j + r, and neighbours of 10^k / 2^k."""
+    vals = set(range(0, 1101))
+    run_up, run_dn = "12345678901234567890", "98765432109876543210"
+    for L in range(1, 21):
+        vals.add(int(run_up[:L]))
+        vals.add(int(run_dn[:L]))
+        vals.add(int(("90" * 10)[:L]))
+        vals.add(int(("10" * 10)[:L]))
+        vals.add(int(("5" + "0" * 19)[:L]) + 5 if L > 1 else 5)
+        for dgt in range(1, 10):
+            vals.add(int(str(dgt) * L))                      # repdigit
+            vals.add(dgt * 10 ** (L - 1))                    # one non-zero digit at position L
+            vals.add(10 ** (L - 1) + dgt if L > 1 else dgt)  # 10...0d
+            vals.add(int("9" * L) - dgt * 10 ** (L // 2))    # a single non-9 digit in the middle
+    for k in range(3, 20):
+        for dlt in (-1, 0, 1):
+            vals.add(10 ** k + dlt)
+    for k in range(10, 65):
+        for dlt in (-1, 0, 1):
+            vals.add(2 ** k + dlt)
+    for j in range(0, 64, 7):
+        for k in (3, 5, 7, 11, 1000003):
+            for r in (0, 1, 9):
+                vals.add(k * 2 ** j + r)
+    return vals
+
+
 def check(run):
     tier = run.tier
     atoms = c02.atoms_for(tier)
-    # same BFS as C02 (depth 2 quick / restricted depth 3 thorough)
     n_at = len(atoms)
-    full = {"binary": range(n_at), "pow": (-2, -1, 2, 3), "root": (2, 3), "scale": True, "prefix": model.ALL_PREFIXES}
-    if tier == "quick":
-        menus = {0: full, 1: {"binary": range(n_at), "pow": (-2, 2), "root": (2,), "scale": True, "prefix": model.ALL_PREFIXES[9:15:5]}}
-        maxdepth = 2
-    else:
-        menus = {0: full, 1: dict(full, prefix=model.ALL_PREFIXES[::4]), 2: {"binary": (0, 1), "pow": (2,), "scale": True}}
-        maxdepth = 3
+    menus, maxdepth = menus_for(tier, n_at)
     states, order, ntrans = {}, [], 0
     for i, a in enumerate(atoms):
         s = c02.State({i: Fr(1)}, {}, None, a.cpp, 0, a.name)
@@ -109,12 +181,15 @@ def check(run):
         order.append(s)
     frontier = list(order)
     parent = {}
+    extra = []           # (path, expr, representative state): transitions whose C++ type is not a state's representative
+    seen_expr = {s.expr for s in order}
     for depth in range(maxdepth):
         nxt = []
         for st in frontier:
             if st.leaf or (depth == 2 and not set(st.mono) <= {0, 1, 2, 4}):
                 continue
-            for lab, mono, scale, wrap, expr in c02.successors(atoms, st, menus[depth]):
+            for succ in c02.successors(atoms, st, menus[depth]):
+                lab, mono, scale, wrap, expr = succ[:5]
                 ntrans += 1
                 if not c02.in_bounds(mono):
                     continue
@@ -126,61 +201,100 @@ def check(run):
                     order.append(t)
                     nxt.append(t)
                     parent[t.sid] = st.sid
+                    seen_expr.add(expr)
+                elif expr not in seen_expr and depth < 2:
+                    seen_expr.add(expr)
+                    extra.append((t.path, expr, states[k]))
         frontier = nxt
     table = atom_table(atoms)
     zork = [a for a in atoms if a.name == "zorks"][0]
     table[labels.UNL_UNIT] = (zork.dim, zork.mag)
     recs, meta = [], {}
-    rid = 0
+
+    def add(stmts, **m):
+        rid = len(recs)
+        recs.append((rid, stmts))
+        meta[rid] = m
+        return rid
+
+    def lrec(cpp):
+        return ["c18::label_rec<%s>();" % cpp]
+
     for s in order:
-        recs.append((rid, ["c18::label_rec<%s>();" % s.expr]))
         dim, mag = c02.dim_mag(atoms, s)
-        meta[rid] = {"kind": "state", "s": s, "dim": dim, "mag": mag, "desc": s.path}
-        rid += 1
+        add(lrec(s.expr), kind="state", s=s, dim=dim, mag=mag, desc=s.path)
     state_rid = {meta[r]["s"].sid: r for r in meta}
+    # ---- every other spelling of a state reached by a transition (the label depends on the type, not on the state)
+    for path, expr, rep in extra:
+        dim, mag = c02.dim_mag(atoms, rep)
+        add(lrec(expr), kind="trans", s=rep, dim=dim, mag=mag, desc="%s (= state %s)" % (path, rep.path))
     # ---- integer / rational scale classes on a labelled unit, an unlabelled unit and a product
     ints = sorted({9, 10, 99, 100, 999, 1000, 1001, 65535, 65536, 2 ** 31 - 1, 2 ** 31, 2 ** 32 - 1, 2 ** 32, 2 ** 32 + 1,
                    10 ** 9, 10 ** 10, 2 ** 53, 10 ** 18, 10 ** 19, 2 ** 63 - 1, 2 ** 63, 2 ** 64 - 1, 7, 12345678901234567})
     rats = [(1, 3), (5, 7), (22, 7), (1, 1000), (2 ** 64 - 1, 3), (3, 2 ** 64 - 1), (1250, 381), (10 ** 19, 7)]
+    from .c06 import mag_expr
+    # numerator / denominator beyond 2^64-1: the part without a digit form may print the marker, the other part must be digits
+    bigrats = [("10^30/7", model.vdiv(model.vpow(model.mag_int(10), 30), model.mag_int(7)), ["7"]),
+               ("7/10^30", model.vdiv(model.mag_int(7), model.vpow(model.mag_int(10), 30)), ["7"]),
+               ("3^41/2", model.vdiv(model.vpow(model.mag_int(3), 41), model.mag_int(2)), ["2"]),
+               ("5/2^64", model.vdiv(model.mag_int(5), model.vpow(model.mag_int(2), 64)), ["5"])]
     bases = [U["meters"], zork, model.Unit("m/s", "decltype(au::Meters{} / au::Seconds{})", model.d(L=1, T=-1), {}, 0, None, named=False)]
     for b in bases:
         for n in ints:
             u = model.scaled(b, n)
-            recs.append((rid, ["c18::label_rec<%s>();" % u.cpp]))
-            meta[rid] = {"kind": "scale", "dim": u.dim, "mag": u.mag, "desc": "%s * %d" % (b.name, n)}
-            rid += 1
+            add(lrec(u.cpp), kind="scale", dim=u.dim, mag=u.mag, desc="%s * %d" % (b.name, n))
         for (n, dd) in rats:
             u = model.scaled(b, n, dd)
-            recs.append((rid, ["c18::label_rec<%s>();" % u.cpp]))
-            meta[rid] = {"kind": "scale", "dim": u.dim, "mag": u.mag, "desc": "%s * %d/%d" % (b.name, n, dd)}
-            rid += 1
-        for nm, m in (("pi", dict(model.MAG_PI)), ("sqrt2", {2: Fr(1, 2)}), ("10^30", model.vpow(model.mag_int(10), 30))):
-            from .c06 import mag_expr
-            recs.append((rid, ["c18::label_rec<decltype(%s{} * (%s))>();" % (b.cpp, mag_expr(m))]))
-            meta[rid] = {"kind": "scale", "dim": b.dim, "mag": model.vmul(b.mag, m), "desc": "%s * %s" % (b.name, nm), "unlabeled_scale": True}
-            rid += 1
+            add(lrec(u.cpp), kind="scale", dim=u.dim, mag=u.mag, desc="%s * %d/%d" % (b.name, n, dd))
+        for nm, m, dg in [("pi", dict(model.MAG_PI), []), ("sqrt2", {2: Fr(1, 2)}, []), ("10^30", model.vpow(model.mag_int(10), 30), [])] + bigrats:
+            add(lrec("decltype(%s{} * (%s))" % (b.cpp, mag_expr(m))), kind="scale", dim=b.dim, mag=model.vmul(b.mag, m),
+                desc="%s * %s" % (b.name, nm), unlabeled_scale=True, digits=dg)
+    # ---- two-digit, negative and rational exponents on a scaled anonymous unit and an unlabelled unit
+    anon3 = [a for a in atoms if not a.named][0]
+    for b in (anon3, zork, U["meters"]):
+        for nm, e, tmpl in (("pow<12>", Fr(12), "au::pow<12>(%s{})"), ("pow<-12>", Fr(-12), "au::pow<-12>(%s{})"),
+                            ("pow<-3>(root<2>)", Fr(-3, 2), "au::pow<-3>(au::root<2>(%s{}))"), ("root<6>(pow<5>)", Fr(5, 6), "au::root<6>(au::pow<5>(%s{}))"),
+                            ("pow<10>(root<3>)", Fr(10, 3), "au::pow<10>(au::root<3>(%s{}))"), ("root<12>", Fr(1, 12), "au::root<12>(%s{})")):
+            tb = dict(table)
+            if b is zork:
+                tb[labels.UNL_UNIT] = (zork.dim, zork.mag)
+            add(lrec("decltype(%s)" % (tmpl % b.cpp)), kind="exp", dim=model.vpow(b.dim, e), mag=model.vpow(b.mag, e),
+                desc="%s(%s)" % (nm, b.name), table=tb)
     # ---- library units: documented label; named units with / without their own label
     for u in model.LIB:
-        recs.append((rid, ["c18::label_rec<%s>();" % u.cpp]))
-        meta[rid] = {"kind": "lib", "dim": u.dim, "mag": u.mag, "desc": u.cpp, "want": u.label}
-        rid += 1
+        add(lrec(u.cpp), kind="lib", dim=u.dim, mag=u.mag, desc=u.cpp, want=u.label)
     for p in model.ALL_PREFIXES:
         for b in (U["meters"], U["bytes"]):
             pu = model.prefixed(p, b)
-            recs.append((rid, ["c18::label_rec<%s>();" % pu.cpp]))
-            meta[rid] = {"kind": "lib", "dim": pu.dim, "mag": pu.mag, "desc": pu.cpp, "want": pu.label}
-            rid += 1
+            add(lrec(pu.cpp), kind="lib", dim=pu.dim, mag=pu.mag, desc=pu.cpp, want=pu.label)
+    # the same label through every other spelling unit_label accepts (maker, symbol, a quantity's `unit` member), and constants
+    for u in (U["meters"], U["hertz"], U["feet"], U["celsius"]):
+        for how, cpp in (("maker", "std::remove_const_t<decltype(%s)>" % u.maker), ("symbol", "std::remove_const_t<decltype(%s)>" % u.symbol),
+                         ("q.unit", "std::remove_const_t<decltype(%s(1).unit)>" % u.maker),
+                         ("prefixed maker", "std::remove_const_t<decltype(au::kilo(%s))>" % u.maker)):
+            want = u.label if how != "prefixed maker" else "k" + u.label
+            add(lrec(cpp), kind="lib", dim=u.dim, mag=u.mag if how != "prefixed maker" else model.vmul(u.mag, model.mag_int(1000)),
+                desc="%s via %s" % (u.cpp, how), want=want)
+    for cpp, want in CONSTANTS:
+        add(lrec("std::remove_const_t<decltype(%s)>" % cpp), kind="const", desc=cpp, want=want)
     named = [("gen::Wugs", model.d(L=1), model.mag_ratio(35, 3), "wug"), ("gen::Zorks", zork.dim, zork.mag, labels.UNL_UNIT),
              ("gen::Blips", model.d(T=1), model.mag_ratio(77, 2), None),
              ("gen::Twelves", model.d(L=1), model.vmul(U["inches"].mag, model.mag_int(12)), None),
              ("au::Rankines", model.d(TH=1), model.mag_ratio(5, 9), None)]
     for cpp, dim, mag, want in named:
-        recs.append((rid, ["c18::label_rec<%s>();" % cpp]))
         tb = dict(table)
         tb[labels.UNL_UNIT] = (dim, mag)
-        meta[rid] = {"kind": "named", "dim": dim, "mag": mag, "desc": cpp, "want": want, "table": tb}
-        rid += 1
-    # ---- common units (C07 alphabets), list length <= 3
+        add(lrec(cpp), kind="named", dim=dim, mag=mag, desc=cpp, want=want, table=tb)
+    # ---- mag_label: integers and rationals as exact digits, sizeof == strlen + 1, NUL, compile-time
+    for n in ints:
+        add(["c18::maglabel_rec<decltype(au::mag<%du>())>();" % n], kind="maglabel", desc="mag_label(%d)" % n, want=str(n))
+    for (n, dd) in rats:
+        fr = Fr(n, dd)   # the magnitude is the reduced fraction
+        add(["c18::maglabel_rec<decltype(au::mag<%du>() / au::mag<%du>())>();" % (n, dd)], kind="maglabel",
+            desc="mag_label(%d/%d)" % (n, dd), want=("%d / %d" % (fr.numerator, fr.denominator)) if fr.denominator != 1 else str(fr.numerator))
+    for nm, m in (("pi", dict(model.MAG_PI)), ("sqrt2", {2: Fr(1, 2)}), ("10^30", model.vpow(model.mag_int(10), 30))):
+        add(["c18::maglabel_rec<decltype(%s)>();" % mag_expr(m)], kind="maglabel", desc="mag_label(%s)" % nm, want=labels.UNL_MAG)
+    # ---- common units (C07 alphabets), list length <= 3; pairs in both orders (same string demanded)
     bks = c07.buckets("quick")
     for bname, units in bks.items():
         units = units[:9] if tier == "quick" else units
@@ -192,84 +306,102 @@ def check(run):
                 if size == 3 and tier == "quick" and sum(combo) % 3:
                     continue
                 g = model.mag_gcd([u.mag for u in us])
-                recs.append((rid, ["c18::label_rec<au::CommonUnitT<%s>>();" % ", ".join(u.cpp for u in us)]))
                 tb = dict(table)
                 for u in us:
                     if u.label is not None:
                         tb[u.label] = (u.dim, u.mag)
                     elif u.named:
                         tb[labels.UNL_UNIT] = (u.dim, u.mag)
-                meta[rid] = {"kind": "common", "dim": us[0].dim, "mag": g, "desc": "common(%s)" % ",".join(u.name for u in us), "table": tb}
-                rid += 1
+                fwd = add(lrec("au::CommonUnitT<%s>" % ", ".join(u.cpp for u in us)), kind="common", dim=us[0].dim, mag=g,
+                          desc="common(%s)" % ",".join(u.name for u in us), table=tb)
+                orders = [list(reversed(us))] if size == 2 else ([us[1:] + us[:1], list(reversed(us))] if sum(combo) % 2 == 0 else [])
+                for o2 in orders:
+                    add(lrec("au::CommonUnitT<%s>" % ", ".join(u.cpp for u in o2)), kind="common", dim=us[0].dim, mag=g,
+                        desc="common(%s)" % ",".join(u.name for u in o2), table=tb, same_as=fwd)
     for us in ([U["kelvins"], U["celsius"]], [U["celsius"], U["fahrenheit"]], [U["kelvins"], U["fahrenheit"], U["celsius"]]):
-        recs.append((rid, ["c18::label_rec<au::CommonPointUnitT<%s>>();" % ", ".join(u.cpp for u in us),
-                           'vf_kv("u", "{" + vf::unit_json<au::CommonPointUnitT<%s>>() + "}");' % ", ".join(u.cpp for u in us)]))
         tb = dict(table)
         for u in us:
             tb[u.label] = (u.dim, u.mag)
-        meta[rid] = {"kind": "commonpt", "dim": us[0].dim, "desc": "common_point(%s)" % ",".join(u.name for u in us), "table": tb}
-        rid += 1
-    # ---- IToA / UIToA
-    iv = list(range(-1100, 1101)) + [s * (10 ** k + dlt) for k in range(3, 19) for dlt in (-1, 0, 1) for s in (1, -1)] + \
-        [s * (2 ** k + dlt) for k in range(10, 63) for dlt in (-1, 0, 1) for s in (1, -1)] + [2 ** 63 - 1, -(2 ** 63) + 1]
-    iv = sorted(set(v for v in iv if -(2 ** 63) < v < 2 ** 63))
-    uv = sorted(set([v for v in iv if v >= 0] + [2 ** 63, 2 ** 64 - 1, 2 ** 64 - 2, 10 ** 19, 10 ** 19 + 1, 10 ** 19 - 1]))
+        fwd = None
+        for o2 in (us, list(reversed(us))):
+            r = add(["c18::label_rec<au::CommonPointUnitT<%s>>();" % ", ".join(u.cpp for u in o2),
+                     'vf_kv("u", "{" + vf::unit_json<au::CommonPointUnitT<%s>>() + "}");' % ", ".join(u.cpp for u in o2)],
+                    kind="commonpt", dim=us[0].dim, desc="common_point(%s)" % ",".join(u.name for u in o2), table=tb, same_as=fwd)
+            fwd = r if fwd is None else fwd
+    # ---- IToA / UIToA: boundary values (incl. INT64_MIN) + the structured digit alphabet, both signs
+    da = digit_alphabet()
+    iv = sorted(set(v for x in da for v in (x, -x) if -(2 ** 63) <= v < 2 ** 63) | {-(2 ** 63), 2 ** 63 - 1, -(2 ** 63) + 1})
+    uv = sorted(set(v for v in da if 0 <= v < 2 ** 64) | {2 ** 63, 2 ** 64 - 1, 2 ** 64 - 2, 10 ** 19, 10 ** 19 + 1, 10 ** 19 - 1})
+    if tier == "quick":   # the full alphabet is the thorough tier's; quick keeps every boundary and every third interior value
+        keep = lambda v: abs(v) <= 1100 or any(abs(abs(v) - b) <= 1 for b in [10 ** k for k in range(3, 20)] + [2 ** k for k in range(10, 65)])
+        iv = [v for i, v in enumerate(iv) if keep(v) or i % 3 == 0]
+        uv = [v for i, v in enumerate(uv) if keep(v) or i % 3 == 0]
     for v in iv:
-        lit = "%dLL" % v
-        recs.append((rid, ['vf_s("s", au::detail::IToA<%s>::value.c_str()); vf_i("len", (long long)au::detail::IToA<%s>::value.size()); '
-                           'vf_i("sz", (long long)sizeof(au::detail::IToA<%s>::value.char_array()));' % (lit, lit, lit)]))
-        meta[rid] = {"kind": "itoa", "want": str(v), "desc": "IToA<%d>" % v}
-        rid += 1
+        lit = "%dLL" % v if v > -(2 ** 63) else "(-9223372036854775807LL - 1)"
+        add(['vf_s("s", au::detail::IToA<%s>::value.c_str()); vf_i("len", (long long)au::detail::IToA<%s>::value.size()); '
+             'vf_i("sz", (long long)sizeof(au::detail::IToA<%s>::value.char_array()));' % (lit, lit, lit)],
+            kind="itoa", want=str(v), desc="IToA<%d>" % v)
     for v in uv:
         lit = "%dULL" % v
-        recs.append((rid, ['vf_s("s", au::detail::UIToA<%s>::value.c_str()); vf_i("len", (long long)au::detail::UIToA<%s>::value.size()); '
-                           'vf_i("sz", (long long)sizeof(au::detail::UIToA<%s>::value.char_array()));' % (lit, lit, lit)]))
-        meta[rid] = {"kind": "itoa", "want": str(v), "desc": "UIToA<%d>" % v}
-        rid += 1
+        add(['vf_s("s", au::detail::UIToA<%s>::value.c_str()); vf_i("len", (long long)au::detail::UIToA<%s>::value.size()); '
+             'vf_i("sz", (long long)sizeof(au::detail::UIToA<%s>::value.char_array()));' % (lit, lit, lit)],
+            kind="itoa", want=str(v), desc="UIToA<%d>" % v)
     # ---- streaming
     sunits = ["au::Meters", "decltype(au::Meters{} / au::Seconds{})", "au::Kilo<au::Grams>", "decltype(au::Feet{} * au::mag<3>())",
               "gen::Zorks", "au::Percent"]
+    chars = {"char": (-128, 127), "signed char": (-128, 127), "unsigned char": (0, 255)}   # x86-64: plain char is signed
     for un in sunits:
-        for t in core.I8:
-            b = core.BITS[t]
-            if b <= 16:
-                ranges = [(core.tmin(t), core.tmax(t))]
+        for t in list(core.I8) + list(chars):
+            if t in chars:
+                ranges = [chars[t]]
             else:
-                ranges = [(max(core.tmin(t), c - 300), min(core.tmax(t), c + 300)) for c in (0, core.tmin(t), core.tmax(t), 10 ** 9, -(10 ** 9))
-                          if core.tmin(t) <= c <= core.tmax(t)]
-            if b == 64:
-                ranges = [(lo, hi) for lo, hi in ranges if -(2 ** 63) <= lo and hi < 2 ** 63]
-                if t == "uint64_t":
-                    ranges = [(0, 600), (2 ** 63 - 300, 2 ** 63 - 1)]
+                b = core.BITS[t]
+                if b <= 16:
+                    ranges = [(core.tmin(t), core.tmax(t))]
+                else:
+                    ranges = [(max(core.tmin(t), c - 300), min(core.tmax(t), c + 300)) for c in (0, core.tmin(t), core.tmax(t), 10 ** 9, -(10 ** 9))
+                              if core.tmin(t) <= c <= core.tmax(t)]
+                if b == 64:
+                    ranges = [(lo, hi) for lo, hi in ranges if -(2 ** 63) <= lo and hi < 2 ** 63]
+                    if t == "uint64_t":
+                        ranges = [(0, 600), (2 ** 63 - 300, 2 ** 63 - 1)]
             for lo, hi in ranges:
-                recs.append((rid, ["c18::stream_sweep<%s, %s>(%dLL%s, %dLL);" % (un, t, lo if lo > -(2 ** 63) else lo + 1, "" if lo > -(2 ** 63) else " - 1", hi)]))
-                meta[rid] = {"kind": "stream", "desc": "stream %s %s [%d,%d]" % (un, t, lo, hi)}
-                rid += 1
+                add(["c18::stream_sweep<%s, %s>(%dLL%s, %dLL);" % (un, t, lo if lo > -(2 ** 63) else lo + 1, "" if lo > -(2 ** 63) else " - 1", hi)],
+                    kind="stream", desc="stream %s %s [%d,%d]" % (un, t, lo, hi))
         for t in core.F3:
-            recs.append((rid, ["c18::stream_float<%s, %s>();" % (un, t)]))
-            meta[rid] = {"kind": "stream", "desc": "stream %s %s" % (un, t)}
-            rid += 1
+            add(["c18::stream_float<%s, %s>();" % (un, t)], kind="stream", desc="stream %s %s" % (un, t))
     cfgs = [(core.GXX14, ["-fsanitize=address"]), (core.CLANG20, [])] if tier == "quick" else \
         [(c, ["-fsanitize=address"] if c is core.GXX14 else []) for c in core.CFG6]
     per_cfg_labels = {}
     checked = 0
     stream_vals = 0
-    for cfg, extra in cfgs:
-        res, failed = psx.run_dump(cfg, recs, os.path.join(run.wd, cfg.name), "c18", PREAMBLE, flags=cflags(cfg) + extra,
-                                   chunk=max(40, len(recs) // (core.NCPU * 3) + 1))
+    counters = {"prefixed_labels_checked_verbatim": 0, "prefixed_labels_also_denoted": 0, "prefixed_labels_outside_atom_grammar": 0,
+                "partially_unlabeled_rational_scales": 0, "marker_allowed_irrational_scale": 0, "compile_time_reads": 0,
+                "reordered_common_units_same_string": 0, "label_collision_groups_checked": 0}
+    done_cfgs = []
+    for cfg, extra_flags in cfgs:
+        if done_cfgs and run.time_left() < 240:
+            break
+        res, failed = psx.run_dump(cfg, recs, os.path.join(run.wd, cfg.name), "c18", PREAMBLE, flags=cflags(cfg) + extra_flags,
+                                   chunk=min(300, max(40, len(recs) // (core.NCPU * 3) + 1)))
+        done_cfgs.append(str(cfg))
         for r, diag in failed.items():
-            run.violation("C18:does-not-compile:%s" % meta[r]["desc"], "%s: label of %s does not compile: %s" % (cfg, meta[r]["desc"], diag))
+            key = "C18:does-not-compile:%s" % meta[r]["desc"]
+            run.violation(key, "%s: label of %s does not compile (not a compile-time string, or rejected): %s" % (cfg, meta[r]["desc"], diag),
+                          run.write_replay(key, {"kind": "program", "config": str(cfg), "flags": extra_flags, "stmts": recs[r][1], "observed": None}))
         obs = {r: o.get("label") for r, o in res.items()}
         per_cfg_labels[str(cfg)] = obs
+        flagged = set()
         for r, o in res.items():
             m = meta[r]
             desc = m["desc"]
             checked += 1
 
-            def viol(kind, what):
-                key = "C18:%s:%s" % (kind, desc)
+            def viol(kind, what, suffix=""):
+                key = "C18:%s:%s%s" % (kind, desc, suffix)
+                flagged.add(r)
                 run.violation(key, "%s: %s" % (cfg, what),
-                              run.write_replay(key, {"kind": "program", "config": str(cfg), "flags": extra, "stmts": recs[r][1], "observed": o}))
+                              run.write_replay(key, {"kind": "program", "config": str(cfg), "flags": extra_flags, "stmts": recs[r][1], "observed": o}))
             if m["kind"] == "itoa":
                 if o["s"] != m["want"] or o["len"] != len(m["want"]) or o["sz"] != len(m["want"]) + 1:
                     viol("itoa", "%s renders as %r (len %d, sizeof %d), expected %r" % (desc, o["s"], o["len"], o["sz"], m["want"]))
@@ -282,17 +414,43 @@ def check(run):
             lab = o["label"]
             if o["sizeof"] != o["strlen"] + 1 or not o["nul"]:
                 viol("size", "label %r of %s: sizeof=%d strlen=%d nul=%s" % (lab, desc, o["sizeof"], o["strlen"], o["nul"]))
+            counters["compile_time_reads"] += 1
+            if not o["ct"]:
+                viol("compile-time", "label %r of %s read in a constant expression differs from the run-time string (embedded NUL / first character / size)" % (lab, desc))
             if m["kind"] == "commonpt":
                 m["dim"], m["mag"] = model.dim_from_readout(o["u"]["dim"]), model.mag_from_readout(o["u"]["mag"])
+            if m.get("same_as") is not None and m["same_as"] in res:
+                if res[m["same_as"]]["label"] != lab:
+                    viol("order-dependent", "%s prints %r but %s prints %r" % (desc, lab, meta[m["same_as"]]["desc"], res[m["same_as"]]["label"]))
+                else:
+                    counters["reordered_common_units_same_string"] += 1
             if m.get("want") is not None:
                 if lab != m["want"]:
                     viol("documented-label", "%s prints %r, documented label is %r" % (desc, lab, m["want"]))
                 continue
             if m["kind"] == "state" and m["s"].wrap is not None:
                 src = res.get(state_rid[parent[m["s"].sid]])
-                want = m["s"].wrap[0][2] + (src["label"] if src else "?")
-                if src is not None and lab != want:
+                if src is None:
+                    continue
+                want = m["s"].wrap[0][2] + src["label"]
+                counters["prefixed_labels_checked_verbatim"] += 1
+                if lab != want:
                     viol("prefix", "%s prints %r, expected prefix symbol + inner label = %r" % (desc, lab, want))
+                    continue
+                # prepending must not turn the label into that of another unit: where the result parses with the documented
+                # grammar, its denotation must still be this unit
+                try:
+                    den = labels.denote(lab, table)
+                except labels.ParseError:
+                    counters["prefixed_labels_outside_atom_grammar"] += 1
+                    continue
+                counters["prefixed_labels_also_denoted"] += 1
+                if den.unknown_mag:
+                    continue
+                if model.dim_key(den.dim) != model.dim_key(m["dim"]) or model.mag_key(den.mag) != model.mag_key(m["mag"]):
+                    viol("prefix-denotes-other-unit", "%s prints %r = prefix symbol + %r, which under the label grammar denotes magnitude %s (dimension %s); "
+                         "the unit has %s (%s)" % (desc, lab, src["label"], model.mag_key(den.mag), model.dim_key(den.dim), model.mag_key(m["mag"]),
+                                                   model.dim_key(m["dim"])), ":inner=" + src["label"])
                 continue
             try:
                 den = labels.denote(lab, m.get("table", table))
@@ -302,16 +460,40 @@ def check(run):
             if model.dim_key(den.dim) != model.dim_key(m["dim"]):
                 viol("denotes-other-dimension", "%s prints %r which denotes dimension %s, unit has %s" % (desc, lab, model.dim_key(den.dim), model.dim_key(m["dim"])))
             elif den.unknown_mag:
-                if model.mag_is_rational(m["mag"]) and not m.get("unlabeled_scale"):
-                    ratio_ok = False
-                    # a rational unit may still contain an irrational scaled atom (state graph *pi); accept the marker then
-                    if m["kind"] == "state" and "pi" in str(model.mag_key(m["s"].scale)):
-                        ratio_ok = True
-                    if not ratio_ok and m["kind"] != "state":
-                        viol("unlabeled-scale", "%s has a rational scale but prints %r" % (desc, lab))
+                if m.get("unlabeled_scale"):
+                    counters["marker_allowed_irrational_scale"] += 1
+                    if m.get("digits"):
+                        counters["partially_unlabeled_rational_scales"] += 1
+                        for dg in m["digits"]:
+                            if dg not in lab.replace(labels.UNL_MAG, ""):
+                                viol("unlabeled-scale", "%s prints %r: the part %s of the scale fits 64 bits but has no digits" % (desc, lab, dg))
+                elif m["kind"] in ("state", "trans", "exp") and "pi" in str(model.mag_key(m["s"].scale if "s" in m else {})):
+                    counters["marker_allowed_irrational_scale"] += 1   # an irrational (*pi) scaled atom inside the unit
+                elif model.mag_is_rational(m["mag"]) or m["kind"] in ("state", "trans", "exp"):
+                    # every scale factor the state graph applies is an integer or a ratio of integers below 2^64: digits are demanded
+                    viol("unlabeled-scale", "%s has only rational scale factors below 2^64 but prints %r" % (desc, lab))
             elif model.mag_key(den.mag) != model.mag_key(m["mag"]):
                 viol("denotes-other-magnitude", "%s prints %r which denotes magnitude %s, unit has %s" % (
                     desc, lab, model.mag_key(den.mag), model.mag_key(m["mag"])))
+        # ---- direct form of "never prints the label of a unit with a different magnitude or dimension": marker-free labels are
+        #      injective on (dim, mag) over everything this run printed (covers labels the grammar oracle does not judge)
+        by_label = {}
+        for r, o in res.items():
+            m = meta[r]
+            if "label" not in o or "dim" not in m or "mag" not in m or m["kind"] == "maglabel":
+                continue
+            if labels.UNL_MAG in o["label"] or labels.UNL_UNIT in o["label"]:
+                continue
+            by_label.setdefault(o["label"], {}).setdefault((model.dim_key(m["dim"]), model.mag_key(m["mag"])), []).append(r)
+        for lab, groups in sorted(by_label.items()):
+            counters["label_collision_groups_checked"] += 1
+            if len(groups) > 1 and not any(r in flagged for g in groups.values() for r in g):
+                rs = [g[0] for g in groups.values()][:2]
+                key = "C18:same-label-different-units:%s" % lab
+                run.violation(key, "%s: %s and %s both print %r but are different units (%s vs %s)" % (
+                    cfg, meta[rs[0]]["desc"], meta[rs[1]]["desc"], lab, list(groups)[0], list(groups)[1]),
+                    run.write_replay(key, {"kind": "program", "config": str(cfg), "flags": extra_flags, "stmts": recs[rs[0]][1],
+                                           "other_stmts": recs[rs[1]][1], "observed": res[rs[0]]}))
     # determinism across configurations
     names = list(per_cfg_labels)
     for c in names[1:]:
@@ -322,17 +504,27 @@ def check(run):
     kinds = {}
     for m in meta.values():
         kinds[m["kind"]] = kinds.get(m["kind"], 0) + 1
+    complete = len(done_cfgs) == len(cfgs)
     run.cov.update({
-        "states": len(order) + kinds.get("scale", 0) + kinds.get("common", 0) + kinds.get("named", 0) + kinds.get("lib", 0),
+        "states": len(order) + sum(kinds.get(k, 0) for k in ("scale", "common", "named", "lib", "exp", "const")),
         "transitions": ntrans + kinds.get("scale", 0) + kinds.get("common", 0),
+        "transition_spellings_labelled": kinds.get("trans", 0),
         "traces_validated_against_impl": checked, "programs_by_kind": kinds, "streamed_values": stream_vals,
-        "configs": [str(c) for c, _ in cfgs], "exhaustive": True,
-        "exhaustive_note": "C02 state graph to depth %d (label of every state's representative type), stated scale/common/named/IToA/streaming alphabets enumerated completely" % maxdepth,
+        "configs": done_cfgs, "exhaustive": complete, "counters": counters,
+        "exhaustive_note": ("C02 state graph to depth %d with C02's menus (label of every state's representative type and of every other transition "
+                            "spelling up to depth 2), stated scale/exponent/common/named/mag_label/IToA/streaming alphabets enumerated completely%s"
+                            % (maxdepth, "" if complete else "; configurations skipped at the deadline: %d" % (len(cfgs) - len(done_cfgs)))),
         "samples": [{"expr": meta[r]["desc"], "label": per_cfg_labels[names[0]].get(r)} for r in list(range(0, len(order), max(1, len(order) // 6)))[:6]],
     })
     run.assumptions += ["label oracle is semantic: the label is parsed with the documented grammar and its denotation (dim, mag) compared with the model; "
-                        "prefixed units are compared verbatim with prefix symbol + inner label, library units with their documented label",
-                        "irrational scale factors must print the unlabeled-scale marker; then only the dimension is compared"]
+                        "library units / constants / mag_label are compared with their documented label; prefixed units are compared verbatim with prefix "
+                        "symbol + inner label and, where that string parses, its denotation is compared as well (strings such as 'k[3 in]' that the "
+                        "grammar has no production for are only counted)",
+                        "irrational scale factors and integer parts above 2^64-1 must print the unlabeled-scale marker; then only the dimension (and the digits "
+                        "of the part that fits) is compared; every other scale factor must be printed as digits",
+                        "IToA/UIToA arguments are an enumerated digit-pattern alphabet (every digit at every position, repdigits, runs, 10^k/2^k neighbours, "
+                        "k*2^j+r lattice, INT64_MIN..UINT64_MAX boundaries), not a random sample",
+                        "plain char is a signed 8-bit type on the x86-64 targets used here"]
 
 
 def replay(path):
